@@ -230,6 +230,20 @@ func Replay(g *graph.G, walk []int, scratch string, depth int, seed int64, f For
 		case "Delete":
 			os.Remove(w.CertFile)
 			cur = g.Edges[cands[0]].To
+		case "Rotate":
+			// another instance regenerates the cache while this one keeps running
+			b, fp, err := w.FreshFile()
+			if err != nil {
+				return res, err
+			}
+			os.Remove(w.CertFile)
+			if err := w.Place(b); err != nil {
+				return res, err
+			}
+			to, _ := ParseState(g.Edges[cands[0]].ToState)
+			w.keys[to.Fkey] = fp
+			w.seen[fp] = true
+			cur = g.Edges[cands[0]].To
 		}
 		if len(res.Divs) > 0 {
 			return res, nil
